@@ -269,6 +269,9 @@ func init() {
 			return fmt.Errorf("cannot start node: %v", err)
 		}
 		defer func() { node.in.Close(); node.cmd.Wait() }()
+		if err := c09JsStages(c); err != nil {
+			return err
+		}
 		var pool [][]byte
 		for _, d := range docs {
 			if len(d.data) < 200000 {
@@ -369,7 +372,7 @@ func init() {
 			run(d, m, cfg, mutated)
 		}
 		for _, k := range h.Known("C09") {
-			if k.Status != "open" {
+			if k.Status != "open" || strings.HasPrefix(k.ID, "K-C09-JS-") { // the JS slice replays its own entries (c09JsStages)
 				continue
 			}
 			var o1, o2 bytes.Buffer
